@@ -19,8 +19,35 @@ pub struct Outcome {
     pub events: Vec<sl::verif::Event>,
 }
 
+thread_local! {
+    static LAST_PANIC_AT: std::cell::RefCell<String> = const { std::cell::RefCell::new(String::new()) };
+}
+
+/// Silent panic hook that remembers where the panic was raised (file path), so that a monitor can
+/// tell a panic inside the full_moon parser (dependency) from one inside StyLua.
 pub fn install_quiet_panic_hook() {
-    std::panic::set_hook(Box::new(|_| {}));
+    std::panic::set_hook(Box::new(|info| {
+        let at = info.location().map(|l| l.file().to_string()).unwrap_or_default();
+        LAST_PANIC_AT.with(|p| *p.borrow_mut() = at);
+    }));
+}
+
+pub fn last_panic_location() -> String {
+    LAST_PANIC_AT.with(|p| p.borrow().clone())
+}
+
+/// Stable description of a panic for signatures: origin (full_moon parser / stylua source file /
+/// other) plus the message without digits.
+pub fn panic_signature(msg: &str) -> String {
+    let at = last_panic_location();
+    let m: String = msg.chars().filter(|c| !c.is_ascii_digit()).take(60).collect::<String>().replace(' ', "_");
+    if at.contains("full_moon") {
+        "panic:in-full_moon-parser".to_string()
+    } else if let Some(p) = at.find("/src/") {
+        format!("panic:stylua{}:{m}", &at[p..])
+    } else {
+        format!("panic:{at}:{m}")
+    }
 }
 
 pub fn run(src: &str, cfg: &Cfg, range: Range, events: bool, verify: bool) -> Outcome {
